@@ -70,6 +70,14 @@ Theorem C10_min_load_compare_store_refuted :
     all_done (snd c) = true /\ fst c 7%N <> minZ (-1) (concat (map (recorded_total 7%N) ts)).
 Proof. exact min_lcs_refuted. Qed.
 
+(* a single compare-and-swap attempt without the retry loses the extreme as well *)
+Theorem C10_max_single_attempt_refuted :
+  exists ts sched,
+    let c := run (fun _ => 0, ts) sched in
+    (forall t, In t ts -> t_secs t = [single_cas_sec 7%N] /\ t_si t = 0%nat /\ t_pc t = 0%nat) /\
+    all_done (snd c) = true /\ fst c 7%N <> maxZ 0 (concat (map (recorded_total 7%N) ts)).
+Proof. exact max_single_cas_refuted. Qed.
+
 (* ---- every call returns what it returns when run alone ----
    Goroutines that share only pools (any number, any schedule, any choice of which pooled object a Get receives,
    including a new one): under the pool discipline (C09: what Put stores is observationally what New builds) and if
@@ -110,6 +118,7 @@ Print Assumptions C10_monitor_totals_exact.
 Print Assumptions C10_counters_exact_always.
 Print Assumptions C10_max_load_compare_store_refuted.
 Print Assumptions C10_min_load_compare_store_refuted.
+Print Assumptions C10_max_single_attempt_refuted.
 Print Assumptions C10_results_sequential.
 Print Assumptions C10_footprint_race_free.
 Print Assumptions C10_common_lock_orders.
